@@ -431,7 +431,7 @@ def run(ctx):
     drv = ctx.build_driver("rcp_driver")
     model = build_model(ctx)
     stats = {"unknown": 0, "steps": 0, "mismatch": 0, "nontrivial": set(), "workload_rel": 0, "workload_asan": 0}
-    n = 220 if ctx.tier == "quick" else 4000
+    n = 500 if ctx.tier == "quick" else 6000
     progs = list(CORPUS) + [gen_program(ctx.rng, ctx.tier) for _ in range(n)]
     explore(ctx, drv, model, progs, stats)
     if ctx.broken and not ctx.violations:
